@@ -49,6 +49,7 @@ type decFrame struct {
 	openers map[types.Object]string // iterator variable -> "Array"/"ArrayOrNull"/"Object"/"ObjectOrNull"
 	names   map[types.Object]types.Object
 	path    string
+	cur     types.Object // the object iterator whose body is being walked (nil outside one)
 }
 
 func (d *decWalker) emit(path, what string) { d.lines = append(d.lines, path+" : "+what) }
@@ -84,6 +85,35 @@ func (d *decWalker) walkFunc(fd *ast.FuncDecl, path string) {
 	d.depth++
 	fr := &decFrame{openers: map[types.Object]string{}, names: map[types.Object]types.Object{}, path: path}
 	d.walkStmts(fd.Body.List, fr, path)
+	d.depth--
+}
+
+// nameParam: the parameter of fd that receives the current property name at call c, if any.
+func (d *decWalker) nameParam(c *ast.CallExpr, fd *ast.FuncDecl, fr *decFrame) types.Object {
+	params := []types.Object{}
+	for _, fl := range fd.Type.Params.List {
+		for _, nm := range fl.Names {
+			params = append(params, d.p.TypesInfo.Defs[nm])
+		}
+		if len(fl.Names) == 0 {
+			params = append(params, nil)
+		}
+	}
+	for i, a := range c.Args {
+		if i < len(params) && params[i] != nil && d.isNameOf(a, fr, fr.cur) {
+			return params[i]
+		}
+	}
+	return nil
+}
+
+func (d *decWalker) walkDispatchHelper(fd *ast.FuncDecl, path string, param, it types.Object) {
+	if d.depth > 12 {
+		failf("decoder helpers nest too deeply (recursion?) at %s", path)
+	}
+	d.depth++
+	fr := &decFrame{openers: map[types.Object]string{}, names: map[types.Object]types.Object{param: it}, path: path}
+	d.walkObjectBody(fd.Body.List, fr, path, it)
 	d.depth--
 }
 
@@ -266,6 +296,9 @@ func (d *decWalker) walkObjectBody(stmts []ast.Stmt, fr *decFrame, path string, 
 	if _, ok := d.known[path]; !ok {
 		d.known[path] = []string{}
 	}
+	saved := fr.cur
+	fr.cur = it
+	defer func() { fr.cur = saved }()
 	for i, st := range stmts {
 		// guard form: `if name != "x" { continue }` — the rest of the body handles property x
 		if ifs, ok := st.(*ast.IfStmt); ok && ifs.Else == nil && ifs.Init == nil && len(ifs.Body.List) == 1 {
@@ -392,6 +425,14 @@ func (d *decWalker) walkExpr(e ast.Expr, fr *decFrame, path string) {
 		if d.passesReader(c) {
 			if f, ok := calledFunc(d.p, c); ok {
 				if fd := d.w.decls[f]; fd != nil && f.Pkg() == d.p.Types {
+					// a helper that is handed the current property name dispatches on it on behalf
+					// of the object being read: its body is part of that object's body
+					if fr.cur != nil {
+						if param := d.nameParam(c, fd, fr); param != nil {
+							d.walkDispatchHelper(fd, path, param, fr.cur)
+							return false
+						}
+					}
 					// arguments first (none of them reads in practice), then the callee's body
 					d.walkFunc(fd, path)
 					return false
